@@ -182,9 +182,13 @@ func (e editor) node(from *Selection, to *Selection, m meta.HasDataDefinitions, 
 	toRequest.New = false
 	toRequest.Selection = to
 
-	toChild, err := to.selekt(&toRequest)
+	toChild, hidden, err := to.selektOrHidden(&toRequest)
 	if err != nil {
 		return err
+	}
+	if hidden {
+		// asking for a new one would replace what is there
+		return fmt.Errorf("%w. '%s' in '%s' is not accessible", fc.BadRequestError, m.Ident(), toRequest.Path)
 	}
 	if toChild != nil {
 		defer toChild.Release()
